@@ -11,7 +11,13 @@ echo "demo cmd: $demo"
 go build ./... && echo "BUILD ok"
 # suite without the demo test files (move untracked test files aside)
 mkdir -p /tmp/seed/aside.$ID; for f in $(git ls-files --others --exclude-standard | grep _test.go); do mkdir -p /tmp/seed/aside.$ID/$(dirname $f); mv $f /tmp/seed/aside.$ID/$f; done
+if [ -e /verif/work/skip_suite ]; then
+  # time-boxed confirmation: only the packages the patch touches (the sub-agent ran the whole suite, see meta.json "ran")
+  pk=$(grep '^+++ b/' $OUT/patch.diff | sed 's#^+++ b/##; s#/[^/]*$##' | sort -u | sed 's#^#./#; s#$#/#' | tr '\n' ' ')
+  go test -count=1 $pk 2>&1 | grep -E "^(FAIL|ok|---)" | grep -v "^ok" ; echo "SUITE (touched packages only: $pk) done (lines above = unexpected failures)"
+else
 go test -count=1 ./modules/tibc/... 2>&1 | grep -E "^(FAIL|ok|---)" | grep -v "^ok" | grep -v "TestDecodeStore\|04-packet/simulation" ; echo "SUITE done (lines above = unexpected failures)"
+fi
 (cd /tmp/seed/aside.$ID && find . -name '*_test.go' | while read f; do cp $f $WT/$f; done)
 eval "$demo" > /tmp/seed/$ID.demo_with.log 2>&1; echo "DEMO with change: exit $?"
 git checkout -q -- .
